@@ -11,8 +11,10 @@ import Xc.Lemmas.Shape
 import Xc.Lemmas.U8
 import Xc.Lemmas.Inj
 import Xc.Thm.C01
+import Xc.Lemmas.Big
+import Xc.Lemmas.BfWindow
 namespace Xc.C03
-open Xc
+open Xc List
 set_option maxRecDepth 1000000
 
 /-- descrypt uses the phrase only through `desKey`: its first 8 bytes shifted left by one (the 8th bit falls out) -/
@@ -340,5 +342,99 @@ theorem C03_gost_reduction (D : Digests) (hD : D.WF) (p p' s s' H : Bytes)
   simp only [List.append_cancel_left_eq] at ee
   have := encode64_inj _ _ (by rw [hD.gost, hD.gost]) ee
   exact ⟨Q1.params, Q1.salt, _, hd1, hd2, hD1, hD2, this⟩
+
+/-- bigcrypt: a false accept needs a DES collision on the first eight bytes under the same salt; and when both phrases went
+    through the segment loop, one at every segment (`SegColl`) -/
+theorem C03_bigcrypt_reduction (d : Bool) (D : Digests) (hD : D.WF) (p p' s s' H : Bytes)
+    (h1 : cryptBig d D p s = .ok H) (h2 : cryptBig d D p' s' = .ok H) :
+    ∃ salt, D.desHash (desKey p) salt 25 = D.desHash (desKey p') salt 25 ∧
+      (H = [a64 salt, a64 (salt / 64)] ++ bigSegments D 16 p salt → H = [a64 salt, a64 (salt / 64)] ++ bigSegments D 16 p' salt →
+        SegColl D 16 p p' salt) := by
+  obtain ⟨a, ha, sa⟩ := cryptBig_shape h1
+  obtain ⟨b, hb, sb⟩ := cryptBig_shape h2
+  have hab : a = b := by
+    rcases sa with sa | sa <;> rcases sb with sb | sb <;> rw [sa] at sb <;>
+      simp only [List.cons_append, List.nil_append, List.cons.injEq] at sb <;> exact salt_chars_inj ha hb sb.1 sb.2.1
+  subst hab
+  have t1 : (H.drop 2).take 11 = desEncode (D.desHash (desKey p) a 25) := by
+    rcases sa with sa | sa <;> rw [sa]
+    · simp only [List.cons_append, List.nil_append, List.drop_succ_cons, List.drop_zero]
+      exact List.take_of_length_le (by rw [desEncode_length8 _ (hD.des _ _ _)]; omega)
+    · simp only [List.cons_append, List.nil_append, List.drop_succ_cons, List.drop_zero]
+      exact bigSegments_take11 D hD 15 p a
+  have t2 : (H.drop 2).take 11 = desEncode (D.desHash (desKey p') a 25) := by
+    rcases sb with sb | sb <;> rw [sb]
+    · simp only [List.cons_append, List.nil_append, List.drop_succ_cons, List.drop_zero]
+      exact List.take_of_length_le (by rw [desEncode_length8 _ (hD.des _ _ _)]; omega)
+    · simp only [List.cons_append, List.nil_append, List.drop_succ_cons, List.drop_zero]
+      exact bigSegments_take11 D hD 15 p' a
+  refine ⟨a, desEncode_inj _ _ (by rw [hD.des, hD.des]) (t1.symm.trans t2), fun e1 e2 => ?_⟩
+  rw [e1] at e2
+  exact bigSegments_coll D hD 16 p p' a (List.append_cancel_left e2)
+
+theorem desKey_append8 (p tail tail' : Bytes) (h8 : 8 ≤ p.length) : desKey (p ++ tail) = desKey (p ++ tail') := by
+  apply desKey_window
+  intro i hi
+  have hi' : i < p.length := by omega
+  simp [List.getD, List.getElem?_append_left hi']
+
+theorem bigSegments_window (D : Digests) : ∀ (fuel : Nat) (p tail tail' : Bytes) (salt : Nat), p.length = 8 * fuel →
+    bigSegments D fuel (p ++ tail) salt = bigSegments D fuel (p ++ tail') salt := by
+  intro fuel
+  induction fuel with
+  | zero => intro p tail tail' salt _; rfl
+  | succ f ih =>
+    intro p tail tail' salt hl
+    simp only [bigSegments]
+    rw [desKey_append8 p tail tail' (by omega)]
+    have d1 : (p ++ tail).drop 8 = p.drop 8 ++ tail := List.drop_append_of_le_length (by omega)
+    have d2 : (p ++ tail').drop 8 = p.drop 8 ++ tail' := List.drop_append_of_le_length (by omega)
+    rw [d1, d2]
+    cases f with
+    | zero =>
+      simp only [bigSegments, List.append_nil]
+      split <;> split <;> rfl
+    | succ k =>
+      have hne : ∀ t : Bytes, (p.drop 8 ++ t).isEmpty = false := by
+        intro t
+        have : 0 < (p.drop 8 ++ t).length := by simp; omega
+        cases hx : p.drop 8 ++ t with
+        | nil => rw [hx] at this; simp at this
+        | cons _ _ => rfl
+      rw [hne tail, hne tail']
+      simp only [Bool.false_eq_true, if_false]
+      rw [ih (p.drop 8) tail tail' _ (by simp; omega)]
+
+/-- bytes beyond the 128th are insignificant for bigcrypt (the documented window) -/
+theorem C03_big_beyond128 (d : Bool) (D : Digests) (p s tail tail' : Bytes) (h : p.length = 128) :
+    cryptBig d D (p ++ tail) s = cryptBig d D (p ++ tail') s := by
+  unfold cryptBig
+  have l1 : (p ++ tail).length > 8 := by simp; omega
+  have l2 : (p ++ tail').length > 8 := by simp; omega
+  by_cases hs : s.length ≤ 13
+  · have c1 : (p ++ tail).length > 8 ∧ s.length ≤ 13 := ⟨l1, hs⟩
+    have c2 : (p ++ tail').length > 8 ∧ s.length ≤ 13 := ⟨l2, hs⟩
+    rw [if_pos c1, if_pos c2]
+    cases d with
+    | false => rfl
+    | true =>
+      simp only [if_true]
+      have : p = p.take 8 ++ p.drop 8 := (List.take_append_drop 8 p).symm
+      rw [this, List.append_assoc, List.append_assoc]
+      exact C03_des_beyond8 D (p.take 8) s _ _ (by simp; omega)
+  · have c1 : ¬ ((p ++ tail).length > 8 ∧ s.length ≤ 13) := fun c => hs c.2
+    have c2 : ¬ ((p ++ tail').length > 8 ∧ s.length ≤ 13) := fun c => hs c.2
+    rw [if_neg c1, if_neg c2]
+    split
+    · rfl
+    · rw [bigSegments_window D 16 p tail tail' _ (by omega)]
+
+/-- bytes beyond the 72nd are insignificant for bcrypt (the documented window): `BF_set_key` of the model that the correspondence
+    check ties to crypt-bcrypt.c reads 18 words of 4 bytes cyclically from the phrase and its terminator -/
+theorem C03_bcrypt_beyond72 (D : Digests) (hbf : D.bf = Bf.bcryptCore) (p s tail tail' : Bytes) (h : p.length = 72) :
+    cryptBf D (p ++ tail) s = cryptBf D (p ++ tail') s := by
+  unfold cryptBf
+  rw [hbf]
+  simp only [Bf.bcryptCore_window _ _ _ p tail tail' h]
 
 end Xc.C03
